@@ -123,28 +123,41 @@ Theorem c03_single_index_refuted_c :
     muted ex_re (run ex_re (map new_rule cfgs) h) lset now = true /\ old_muted ex_re cfgs h lset now = false.
 Proof. exists [ex_rule_c], ex_hc, (2 * ex_min), ex_t. vm_compute. repeat split; discriminate. Qed.
 
-(* ---- known finding refired-source-unindexed-after-gc: the GC's two steps are not atomic together ----
-   With nothing in between they are OGC (gc_rule_split). With the subscription loop processing the update that makes
-   the collected source fire again in between, the source ends up cached but not indexed: its target is not muted
-   although the source fires - against c03_mutes_iff_spec for the history "resolve, GC, fire again". *)
+(* ---- the GC window (repaired in /repo by 3858cc1 "fix: inhibit: a source that fires again during a cache garbage
+        collection keeps its index entry"; before it the callback dropped the index entry of a source stored again
+        between the two steps: finding refired-source-unindexed-after-gc of harness/c03/gcrace_test.go) ----
+   store.Alerts.GC is two steps: the resolved alerts leave the cache under the store lock (OGCDelete), the callback
+   prunes the index afterwards (OGCCallback, atomic under InhibitRule.mtx, skipping fingerprints that are in the cache
+   again); source updates (each atomic under InhibitRule.mtx) may be processed in between. The operation type of the
+   histories contains both steps, the callback with ANY list of "deleted" alerts, so c03_mutes_iff_spec,
+   c03_verdict_depends_only_on_firing, c03_order_independent and c03_inhibitedBy_sound cover every interleaving of
+   updates with the two steps. *)
 Theorem c03_gc_steps_are_ogc now r :
   gc_callback_rule (snd (gc_delete_rule now r)) (fst (gc_delete_rule now r)) = gc_rule now r.
 Proof. exact (gc_rule_split now r). Qed.
 
-Theorem c03_gc_callback_window_refuted :
-  exists (s_res s_fire : alert) (now : Z),
-    let r0 := process_rule ex_re s_res (new_rule ex_rule) in
-    let '(r1, dead) := gc_delete_rule now r0 in          (* GC, step 1: S (resolved) leaves the cache *)
-    let r2 := process_rule ex_re s_fire r1 in            (* the subscription loop: S fires again *)
-    let r3 := gc_callback_rule dead r2 in                (* GC, step 2: the callback drops S's index entry *)
-    resolved_at s_fire (now + 1) = false /\ ir_sc r3 !! ex_s1 = Some s_fire /\
-    muted ex_re [r3] ex_t (now + 1) = false /\
-    (* the atomic GC of the model, on the same history, keeps the target muted *)
-    muted ex_re (run ex_re (map new_rule [ex_rule]) [(1, OProcess s_res); (now, OGC (fun _ => true)); (now, OProcess s_fire)]) ex_t (now + 1) = true.
-Proof.
-  exists (mkA ex_s1 1 (5 * ex_min) 1), (mkA ex_s1 1 (60 * ex_min) (15 * ex_min)), (15 * ex_min).
-  vm_compute. repeat split; discriminate.
-Qed.
+(* The index invariant the verdict theorems rest on, stated for the window itself: after the delete step, ANY
+   sequence of source updates and then the callback on ANY list, every cached source is indexed under its own
+   equal-labels value (for every reachable state of a rule, every regexp semantics). *)
+Theorem c03_gc_window_keeps_cached_sources_indexed re c h t0 now dead updates f a :
+  mono_from t0 h -> hist_ok [] h -> last_time t0 h <= now ->
+  let r3 := gc_callback_rule dead (foldl (fun r a => process_rule re a r)
+                                         (fst (gc_delete_rule now (run_rule re c h))) updates) in
+  ir_sc r3 !! f = Some a -> a_lbls a = f /\ f ∈ ix_get (ir_ix r3) (eqkey c f).
+Proof. exact (gc_window_indexed re c h t0 now dead updates f a). Qed.
+
+(* non-vacuity: the history that broke the rule before the repair - resolve, GC step 1, fire again, GC step 2 on the
+   alert step 1 deleted - satisfies the hypotheses and ends with the target muted by the source that fired again *)
+Example c03_gc_window_nonvacuous :
+  let s_res := mkA ex_s1 1 (5 * ex_min) 1 in
+  let s_fire := mkA ex_s1 1 (60 * ex_min) (15 * ex_min) in
+  let now := 15 * ex_min in
+  let h := [(1, OProcess s_res); (now, OGCDelete (fun _ => true)); (now, OProcess s_fire);
+            (now, OGCCallback (fun _ => true) [s_res])] in
+  mono_from 0 h /\ hist_okb [] h = true /\
+  snd (gc_delete_rule now (process_rule ex_re s_res (new_rule ex_rule))) = [s_res] /\
+  mutes ex_re (run ex_re (map new_rule [ex_rule]) h) ex_t (now + 1) = Some [ex_s1].
+Proof. vm_compute. repeat split; discriminate. Qed.
 
 (* ---- non-vacuity: the hypotheses are met by concrete histories on which the verdict is not constant ---- *)
 Example c03_nonvacuous_history :
